@@ -307,6 +307,15 @@ Qed.
 Lemma maxdist_is_max : forall l, l <> [] -> is_max (maxdist l) (map dist l).
 Proof. intros [|x r] H; [contradiction|]. unfold maxdist, argmax. apply argmax_from_is_max. Qed.
 
+Lemma ub_concat : forall ms (locals : list (list Q)) v, Forall2 is_max ms locals ->
+  Forall (fun x => (x <= v)%Q) ms -> Forall (fun x => (x <= v)%Q) (concat locals).
+Proof.
+  intros ms locals v HF; induction HF as [|w loc ms' r Hw HF' IH]; intros Hub; [constructor|].
+  inversion Hub as [|? ? Hwv Hub']; subst. cbn [concat]. apply Forall_app. split.
+  - destruct Hw as [_ Hw]. eapply Forall_impl; [|exact Hw]. intros x Hx. cbn beta in *. eapply Qle_trans; eassumption.
+  - apply IH. assumption.
+Qed.
+
 (* allreduce(MAX) of the local maxima is a maximum of all entries of all local arrays *)
 Lemma striped_max_is_max : forall (locals : list (list Q)), locals <> [] -> Forall (fun loc => loc <> []) locals ->
   exists v, striped_max locals = Some v /\ is_max v (concat locals).
@@ -327,15 +336,7 @@ Proof.
     cbn [concat]. apply in_or_app. destruct Hin as [->|Hin].
     + left. destruct Hw. assumption.
     + right. apply IH; [assumption|]. inversion Hub; assumption.
-  - induction HF as [|w loc ms' r Hw HF' IH]; [constructor|].
-    inversion Hub as [|? ? Hwv Hub']; subst. cbn [concat]. apply Forall_app. split.
-    + destruct Hw as [_ Hw]. eapply Forall_impl; [|exact Hw]. intros x Hx. eapply Qle_trans; eassumption.
-    + destruct Hin as [->|Hin].
-      * clear IH. induction HF' as [|w' loc' ms'' r' Hw' HF'' IH']; [constructor|].
-        inversion Hub' as [|? ? Hw'v Hub'']; subst. cbn [concat]. apply Forall_app. split.
-        -- destruct Hw' as [_ Hw']. eapply Forall_impl; [|exact Hw']. intros x Hx. eapply Qle_trans; eassumption.
-        -- apply IH'. assumption.
-      * apply IH; assumption.
+  - eapply ub_concat; eassumption.
 Qed.
 
 (* striped_array_max of the scattered distances decides the stopping test like the serial max *)
